@@ -47,7 +47,7 @@ def _batch_proc(trie):
 
 
 class Handle:
-    __slots__ = ("trie", "prune", "model", "ver", "bgen", "btrie", "bmodel", "bver", "pre", "name")
+    __slots__ = ("trie", "prune", "model", "ver", "bgen", "btrie", "bmodel", "bver", "pre", "name", "bstart")
 
     def __init__(self, trie, prune, name):
         self.trie = trie
@@ -60,6 +60,7 @@ class Handle:
         self.bver = 0
         self.pre = None
         self.name = name
+        self.bstart = -1
 
 
 _ORIG_CACHED = HexaryTrie._cached_create_node_to_db_mapping
@@ -93,12 +94,18 @@ class HWorld:
         self.probes = [unhx(k) for k in cfg.get("probe", [])]
         self._ref = {}
         self.changed = False  # did the last command change (or try to change) state?
+        self.idx = -1  # index of the command being executed
+        self.last = None  # value returned by the last lookup of this step
+        self.obs = []  # (command index, op, outcome, root, value) of every step
+        self.cut = []  # [start, end] command index ranges of batches that did not commit
+        self.fired = []  # fault directives that fired in this step
 
     # ------------------------------------------------------------------
     def run(self, cmds):
         set_cache_knob(int(self.cfg.get("cache", 4096)))
         try:
-            for cmd in cmds:
+            for i, cmd in enumerate(cmds):
+                self.idx = i
                 self.step(cmd)
             self.finish()
         finally:
@@ -121,14 +128,17 @@ class HWorld:
     def step(self, cmd):
         self.ev += 1
         self.changed = False
+        self.last = None
+        self.fired = []
         fn = getattr(self, "op_" + cmd["op"], None)
         if fn is None:
             raise HarnessError(f"unknown command {cmd!r}")
         h = self.handles[cmd.get("h", 0) % len(self.handles)]
         outcome = fn(h, cmd)
         st = self.st
-        st.rec(self.ev, cmd["op"], outcome, h.trie.root_hash, len(self.db.raw()))
-        st.sched_rec(h.name, cmd["op"], cmd.get("on"), outcome)
+        st.rec(self.ev, cmd["op"], outcome, h.trie.root_hash, len(self.db.raw()), self.fired)
+        st.sched_rec(h.name, cmd["op"], cmd.get("on"), outcome, self.fired)
+        self.obs.append((self.idx, cmd["op"], outcome, h.trie.root_hash, self.last))
         st.state(h.trie.root_hash)
         alarms = self.db.take_alarms()
         if alarms:
@@ -145,6 +155,37 @@ class HWorld:
             return "ok", fn(*args)
         except Exception as e:
             return "exc", e
+
+    # -- fault directives attached to a command -----------------------------------
+    def arm(self, cmd):
+        """`fw: [n, applied]` fails the n-th db write of this call; `fd` likewise for
+        deletes; `wh: [hex hashes] | "all"` withholds node bodies for this call."""
+        fw = cmd.get("fw")
+        fd = cmd.get("fd")
+        wh = cmd.get("wh")
+        if wh == "all":
+            wh = set(self.db.raw())
+        elif wh:
+            wh = {unhx(x) for x in wh}
+        self.db.arm(
+            fail_set=(int(fw[0]), bool(fw[1])) if fw else None,
+            fail_del=(int(fd[0]), bool(fd[1])) if fd else None,
+            withhold=wh,
+        )
+
+    def disarm(self):
+        db = self.db
+        sets, dels = db.disarm()
+        if db.fired is not None:
+            kind, n, applied = db.fired
+            name = ("write" if kind == "set" else "delete") + ("-fail-applied" if applied else "-fail-not-applied")
+            self.st.fault(name)
+            self.fired.append(name)
+            db.fired = None
+        if db.withheld_hits:
+            self.st.fault("withhold-node", len(db.withheld_hits))
+            self.fired.append("withheld")
+        return sets, dels
 
     def target(self, h, cmd):
         on = cmd.get("on", "live")
@@ -180,7 +221,11 @@ class HWorld:
             fn = (lambda: trie.__delitem__(k)) if via == "d" else (lambda: trie.delete(k))
         self.changed = True
         self.pre_mutation(h, cmd, trie)
+        if cmd.get("uncaught") and cmd.get("on") == "batch":
+            return self._mutate_uncaught(h, cmd, fn, model, k, kind, locals().get("v"))
+        self.arm(cmd)
         status, res = self.call(fn)
+        self.writes = self.disarm()
         self.post_mutation(h, cmd, trie, status, res)
         if status == "exc":
             return self.mutation_raised(h, cmd, res)
@@ -192,6 +237,32 @@ class HWorld:
             was = model.pop(k, None)
             self.st.probe(("delete" if kind == "del" else "set-empty") + ("-present" if was is not None else "-absent"))
         self.bump(h, cmd.get("on", "live"))
+        return "ok"
+
+    def _mutate_uncaught(self, h, cmd, fn, model, k, kind, v):
+        """The client issues the batch operation inside the with-block and does not
+        catch what it raises: a library exception then leaves the block."""
+        g = h.bgen
+        self.pre_abort(h, cmd)
+        self.arm(cmd)
+        try:
+            g.send(("call", lambda batch: fn()))
+        except StopIteration:
+            self.disarm()
+            raise HarnessError("batch generator returned during a call")
+        except BaseException as e:
+            self.disarm()
+            self.cut.append([h.bstart, self.idx])
+            self._end_batch(h)
+            self.st.fault("batch-abort-library-exception")
+            self.after_abort(h, cmd, "propagated", exc=e)
+            return "left-block:" + type(e).__name__
+        self.disarm()
+        if kind == "set":
+            model[k] = v
+        else:
+            model.pop(k, None)
+        self.bump(h, "batch")
         return "ok"
 
     def pre_mutation(self, h, cmd, trie):
@@ -226,6 +297,7 @@ class HWorld:
         h.btrie = res
         h.bmodel = dict(h.model)
         h.bver = 0
+        h.bstart = self.idx
         self.snapshot_pre(h)
         return "ok"
 
@@ -244,15 +316,19 @@ class HWorld:
         self.changed = True
         g = h.bgen
         self.pre_commit(h, cmd)
+        self.arm(cmd)
         try:
             g.send(("commit",))
         except StopIteration:
+            self.writes = self.disarm()
             self.post_commit(h, cmd, None)
             h.model = self._end_batch(h)
             h.ver += 1
             self.st.probe("batch-committed")
             return "ok"
         except Exception as e:
+            self.writes = self.disarm()
+            self.cut.append([h.bstart, self.idx])
             self.post_commit(h, cmd, e)
             self._end_batch(h)
             return self.commit_raised(h, cmd, e)
@@ -276,6 +352,7 @@ class HWorld:
         g = h.bgen
         exc = ClientAbortBase("client abort") if cmd.get("exc") == "B" else ClientAbort("client abort")
         outcome = None
+        self.pre_abort(h, cmd)
         try:
             g.send(("raise", exc))
         except StopIteration:
@@ -284,12 +361,16 @@ class HWorld:
             outcome = "propagated" if e is exc else "replaced:" + type(e).__name__
         else:
             raise HarnessError("batch generator yielded after abort")
+        self.cut.append([h.bstart, self.idx])
         self._end_batch(h)
         self.st.fault("batch-abort-base" if cmd.get("exc") == "B" else "batch-abort")
-        self.after_abort(h, cmd, outcome)
+        self.after_abort(h, cmd, outcome, exc=exc)
         return outcome
 
-    def after_abort(self, h, cmd, outcome):
+    def pre_abort(self, h, cmd):
+        pass
+
+    def after_abort(self, h, cmd, outcome, exc=None):
         pass
 
     # -- reads ----------------------------------------------------------------
@@ -308,6 +389,7 @@ class HWorld:
 
     def lookup(self, trie, model, k, api):
         want = model.get(k, b"")
+        self.last = None
         if api == "get":
             status, res = self.call(trie.get, k)
         elif api == "getitem":
@@ -326,6 +408,7 @@ class HWorld:
             self._lookup_probe(model, k)
         if status == "exc":
             return "exc:" + type(res).__name__
+        self.last = res
         return "hit" if res else "miss"
 
     def _lookup_probe(self, model, k):
